@@ -32,9 +32,13 @@ def run(chk, tier, seed, replay=None):
     graphs = [g for g in corecheck.export_graphs(chk, 4) if g['n'] >= 1]
     if tier == 'quick':
         corecheck.run_mc(chk, ['Runner_design'])
+        corecheck.run_mc(chk, ['System_q', 'System_asbuilt_q', 'System_dev_skipped_q'], module='System',
+                         expect_violation=['System_dev_skipped_q'])
         n1, n2, nmodes = 150, 90, 40
     else:
         corecheck.run_mc(chk, ['Runner_design', 'Runner_deep2'], timeout=3000)
+        corecheck.run_mc(chk, ['System_design', 'System_asbuilt', 'System_dev_skipped'], module='System',
+                         expect_violation=['System_dev_skipped'], timeout=3000)
         n1, n2, nmodes = 2000, 1200, 500
     allk = list(worlds.OUTCOMES)
     prof_a = {'sweep': True, 'kinds': 'mixed', 'hooks': 'random',
